@@ -26,6 +26,9 @@ type DeviceCfg struct {
 	// "Local", "UTC", a fixed offset "+hh:mm" / "-hh:mm", or an IANA name. No listed property lets the wire bytes, the
 	// routing or a decoded value depend on it.
 	TZ string `json:"tz,omitempty"`
+	// RawIP, when set, replaces IP by an arbitrary IP literal ("fe80::1", "::ffff:10.0.0.1", "::1", "fe80::1%eth0"): a
+	// configuration value the library must survive (C04); which route it gets is not judged.
+	RawIP string `json:"raw_ip,omitempty"`
 }
 
 // Loc resolves a TZ string ("" -> def).
@@ -73,6 +76,11 @@ func (d DeviceCfg) Device() uhppote.Device {
 	addr := types.ControllerAddr{}
 	if d.HasAddr {
 		addr = types.ControllerAddrFrom(netip.AddrFrom4(d.IP), d.Port)
+		if d.RawIP != "" {
+			if a, err := netip.ParseAddr(d.RawIP); err == nil {
+				addr = types.ControllerAddrFrom(a, d.Port)
+			}
+		}
 	}
 	doors := append([]string(nil), d.Doors...)
 	if d.ViaNew {
